@@ -263,6 +263,22 @@ def install():
     sps.csc_matrix = csc_matrix
     sps.diags = diags
     spl.aslinearoperator = aslinearoperator
+    # scipy's LinearOperator.dot converts its operand with np.asarray (dropping the SA subclass whose astype / dtype
+    # the code under analysis relies on): keep object operands as SA
+    import scipy.sparse.linalg._interface as _itf
+
+    _orig_dot = _itf.LinearOperator.dot
+
+    def _dot(self, x):
+        if isobj(x):
+            x = x.view(SA)
+            if x.ndim == 1 or (x.ndim == 2 and x.shape[1] == 1):
+                return self.matvec(x)
+            if x.ndim == 2:
+                return self.matmat(x)
+        return _orig_dot(self, x)
+
+    _itf.LinearOperator.dot = _dot
     import scipy.sparse._base as _spb
 
     _orig_dispatch = _spb._spbase._matmul_dispatch
